@@ -125,6 +125,7 @@ class Type1FontHeaderParser(PSStackParser[int]):
     KEYWORD_ARRAY = KWD(b"array")
     KEYWORD_READONLY = KWD(b"readonly")
     KEYWORD_FOR = KWD(b"for")
+    KEYWORD_STANDARD_ENCODING = KWD(b"StandardEncoding")
 
     def __init__(self, data: BinaryIO) -> None:
         PSStackParser.__init__(self, data)
@@ -160,6 +161,9 @@ class Type1FontHeaderParser(PSStackParser[int]):
             ((_, key), (_, value)) = self.pop(2)
             if isinstance(key, int) and isinstance(value, PSLiteral):
                 self.add_results((key, literal_name(value)))
+        elif token is self.KEYWORD_STANDARD_ENCODING:
+            # /Encoding StandardEncoding def
+            self._cid2unicode.update(EncodingDB.get_encoding("StandardEncoding"))
 
 
 NIBBLES = ("0", "1", "2", "3", "4", "5", "6", "7", "8", "9", ".", "e", "e-", None, "-")
